@@ -64,6 +64,9 @@ def main(argv=None):
     except Exception:
         traceback.print_exc()
         print(f"MACHINERY-ERROR {pid}: unexpected exception", file=sys.stderr)
+        if chk is not None and chk.violation_count > 0:
+            chk.notes["machinery_error_after_violation"] = traceback.format_exc()[-500:]
+            return chk.finish()
         return 2
 
 
